@@ -1075,6 +1075,29 @@ pub fn swarm_for(profile: &str, rng: &mut Rng, thorough: bool) -> Swarm {
                 sw.w.commit = 3;
                 sw.w.rollback = 1;
             }
+            if rng.chance(1, 6) {
+                // large transactions (more than 16 dirty pages per COMMIT: the chunked commit path)
+                // followed by checkpoints and reopen cycles
+                sw.cfg = DbConfig::durable();
+                sw.p_medium = 95;
+                sw.p_long = 0;
+                if !sw.types.contains(&Ty::Text) {
+                    sw.types.push(Ty::Text);
+                }
+                sw.max_rows_per_insert = 110;
+                sw.min_rows_per_insert = 60;
+                sw.p_multi_insert = 90;
+                sw.p_null = 3;
+                sw.w.insert *= 3;
+                sw.w.begin = 10;
+                sw.w.commit = 10;
+                sw.w.rollback = 1;
+                sw.w.truncate = 0;
+                sw.w.select = 2;
+                sw.w.count = 1;
+                sw.w.create_index = 1;
+                sw.n_ops = sw.n_ops.max(24);
+            }
         }
         "iso" => {
             sw.sessions = if rng.chance(1, 3) { 3 } else { 2 };
